@@ -66,5 +66,5 @@ func (wg *WeightedAuthorizationModelGraph) verifAssignWeightsForced() (bool, err
 		}
 	}
 
-	return true, nil
+	return true, wg.checkRelationsReachTerminalType()
 }
